@@ -20,6 +20,8 @@ CHECKS = {
             "TLC model checking of an exhaustive bounded program family + spec->code replay + TLC trace validation", "§4 C03"),
     "C06": ("hgv_engine", "Each program is wired in several admissible statement orders; all runs must produce the streams Dataflow.tla specifies (hence identical); sharing scenarios check that equal (definition, inputs, scalars) may share while differing nodes and all sinks stay distinct.",
             "Dataflow.tla prediction by TLC + differential replay of statement-order permutations / sharing scenarios on the compiled tree", "§4 C06"),
+    "C07": ("hgv_iso", "Isolation.tla (process-wide registries monotone, builder recipes immutable, seed global state copied per executor, per-executor state private) is model-checked exhaustively: what an executor has produced after k phases is a function of its program alone, no executor's global state holds another program's keys; its histories - Build / Make / Step interleaved at executor-phase granularity, executors on their own threads, builders reused - are replayed into the real code through GraphExecutorBuilder::phase_runner, plus free-running groups of 2-8 concurrent executors and 8 executors created at the same instant in a fresh process; every executor's trace must equal, event by event, the trace of its program run alone in a fresh process (programs with node state, global state written and probed across programs, recordings, map_ children, feedback, self-scheduling).",
+            "TLC model checking of Isolation.tla + schedule replay on threads through the public phase runner + differential against a fresh-process reference", "§4 C07"),
     "C08": ("hgv_engine", "Dataflow.tla models feedback delivery (invariant FbDelivered: every written value re-appears exactly one step later, in order, initial value at start; liveness Terminates) and is model-checked on each loop program; the real streams of feedback readers are compared with the specification and EngineTrace validates each reader event; quiescence = no cycles beyond the specified ones.",
             "TLA+ model checking (FbDelivered, Terminates) + spec->code replay + TLC trace validation", "§4 C08"),
     "C09": ("hgv_engine", "The same TLC-predicted program runs with a sub-range inlined, nested and doubly nested; streams are compared pairwise and with Dataflow.tla; EngineTrace validates child-clock rules (child time >= parent time, child cycle inside its node's turn) and any engine rule broken only by the nested presentation is a violation.",
@@ -40,7 +42,8 @@ CHECKS = {
             "TLC exhaustive model checking of NodeSched.tla + behaviour replay + TLC trace validation against SchedTrace.tla", "§4 C18"),
 }
 
-ENGINES = {"hgv_engine": ("/verif/harness/engine", "native interpreter-style driver linked against the compiled working tree; scenarios in, ndjson traces out")}
+ENGINES = {"hgv_iso": ("/verif/harness/iso", "several builders / executors in one process on several threads, gated at executor-phase granularity by the public phase_runner"),
+           "hgv_engine": ("/verif/harness/engine", "native interpreter-style driver linked against the compiled working tree; scenarios in, ndjson traces out")}
 
 
 def main():
